@@ -367,6 +367,10 @@ class Interp:
         from . import ext as _ext
         if isinstance(a, _ext.SByte1) or isinstance(b, _ext.SByte1):
             return _ext.bytes_eq(self, a, b)
+        if isinstance(a, _ext.JDump) and isinstance(b, _ext.JDump):
+            return self.eq(a.v, b.v)      # as JSON values (object key order is immaterial)
+        if isinstance(a, _ext.JDump) or isinstance(b, _ext.JDump):
+            return False       # a JSON record text is never one of the framing literals
         if (is_int_like(a) or isinstance(a, float)) and (is_int_like(b) or isinstance(b, float)):
             if not isinstance(a, Sym) and not isinstance(b, Sym):
                 return a == b
@@ -393,6 +397,12 @@ class Interp:
                 return False
             return b_and(*[self.eq(x, y) for x, y in zip(a, b)])
         if isinstance(a, SList) and isinstance(b, SList):
+            if len(a.items) == 1 and a.items[0] is V.PENDING:
+                a.items = list(b.items)        # defining equation of a havocked trace
+                return True
+            if len(b.items) == 1 and b.items[0] is V.PENDING:
+                b.items = list(a.items)
+                return True
             if len(a.items) != len(b.items):
                 return False
             return b_and(*[self.eq(x, y) for x, y in zip(a.items, b.items)])
@@ -402,6 +412,8 @@ class Interp:
             return b_and(self.eq(ra, rb), self.eq(sa, sb))
         if isinstance(a, SCardSet) and isinstance(b, SCardSet):
             return b_and(*[self.eq_bool(x, y) for x, y in zip(a.guards, b.guards)])
+        if isinstance(a, V.SMap) or isinstance(b, V.SMap):
+            return V.smap_eq(self, a, b)
         if isinstance(a, SSeq) or isinstance(b, SSeq):
             return self.seq_eq(a, b)
         if isinstance(a, SVec) and isinstance(b, SVec):
@@ -564,6 +576,11 @@ class Interp:
                 except TypeError as e:
                     raise PyRaise(TypeError, e.args)
             return b_or(*[self.eq(x, y) for y in cont.items])
+        if isinstance(cont, (SDict, dict)) and isinstance(x, XStr):
+            if x.alts is None:
+                raise EngineError(f'contains {cont!r} {x!r}')
+            keys = cont.d if isinstance(cont, SDict) else cont
+            return b_or(*[g for g, t in x.alts if t in keys])
         if isinstance(cont, SDict):
             if is_native(x):
                 return x in cont.d
@@ -880,7 +897,7 @@ class Interp:
         return self.call(f, args, kwargs, node=node, fr=fr)
 
     # -- comprehensions --------------------------------------------------------------------------
-    def _comp(self, node, fr, emit):
+    def _comp(self, node, fr, emit, first_iter=None):
         """Generic comprehension driver: emit(guard, frame) for each produced element."""
         cfr = Frame(fr.globals, fr.cls, fr, fr.name + '.<comp>')
         cfr.fdef = getattr(fr, 'fdef', None)
@@ -890,7 +907,8 @@ class Interp:
                 emit(guard, cfr)
                 return
             g = node.generators[gi]
-            it = self.ev(g.iter, cfr if gi else fr)
+            it = first_iter if (gi == 0 and first_iter is not None) else \
+                self.ev(g.iter, cfr if gi else fr)
             for eg, item in self.iterate_guarded(it):
                 self.assign(g.target, item, cfr)
                 gd = b_and(guard, eg)
@@ -906,13 +924,29 @@ class Interp:
         rec(0, True)
 
     def ev_ListComp(self, node, fr):
+        if len(node.generators) == 1 and not node.generators[0].ifs:
+            src = self.ev(node.generators[0].iter, fr)
+            if isinstance(src, SOpt):
+                src = self.unopt(src)
+                if src is None:
+                    raise PyRaise(TypeError, ("'NoneType' object is not iterable",))
+            if isinstance(src, (SSeq, V.SMap)):
+                # comprehension over a list of symbolic length: a lazy map (element i is the
+                # element expression evaluated at src[i]); compared at an arbitrary element
+                return V.SMap(src, node, fr, self)
+            return self._listcomp_from(node, fr, src)
+        return self._listcomp_from(node, fr, None)
+
+    def _listcomp_from(self, node, fr, first_iter):
         items = []
-        self._comp(node, fr, lambda g, cfr: items.append((g, self.ev(node.elt, cfr))))
+        self._comp(node, fr, lambda g, cfr: items.append((g, self.ev(node.elt, cfr))),
+                   first_iter=first_iter)
         if all(g is True for g, _ in items):
             return SList([v for _, v in items])
         return GList(items)
 
-    ev_GeneratorExp = ev_ListComp
+    def ev_GeneratorExp(self, node, fr):
+        return self._listcomp_from(node, fr, None)
 
     def ev_SetComp(self, node, fr):
         items = []
@@ -1032,6 +1066,8 @@ class Interp:
                     return self.bind(k.__dict__[name], obj.self_val, k)
             raise PyRaise(AttributeError, (name,))
         from .ext import SExt, SBytes
+        if isinstance(obj, SExt) and name in obj.fields:
+            return obj.fields[name]
         if isinstance(obj, (SList, SDict, SCardSet, SSeq, SSet, SVec, GList, XStr, SExt, SBytes)):
             return BuiltinMethod(obj, name)
         if isinstance(obj, ExcValue):
@@ -1140,6 +1176,9 @@ class Interp:
                 raise PyRaise(TypeError, ("'NoneType' object is not subscriptable",))
         if isinstance(idx, SOpt):
             idx = self.unopt(idx)
+        from .strings import XStr as _XS
+        if isinstance(obj, dict) and isinstance(idx, _XS):
+            obj = SDict(obj)
         if isinstance(obj, dict) and isinstance(idx, SEnum):
             # constant table (module-level dict of the spec / repo) looked up with a symbolic Enum
             # key: the ite-chain is built once per (table, key term) and memoised
@@ -1230,6 +1269,24 @@ class Interp:
     def dict_get(self, d, key):
         if isinstance(key, SOpt):
             key = self.unopt(key)
+        from .strings import XStr as _X
+        if isinstance(key, _X):
+            if key.alts is None:
+                raise EngineError(f'dict key {key!r}')
+            missing = b_or(*[g for g, t in key.alts if t not in d.d])
+            if self.ctx.decide(missing):
+                raise PyRaise(KeyError, ('<key>',))
+            good = [(g, d.d[t]) for g, t in key.alts if t in d.d]
+            try:
+                acc = good[-1][1]
+                for g, v in reversed(good[:-1]):
+                    acc = V.merge(BT(g), v, acc)
+                return acc
+            except CannotMerge:
+                for g, v in good[:-1]:
+                    if self.ctx.decide(g):
+                        return v
+                return good[-1][1]
         if isinstance(key, SEnum):
             cands = [k for k in d.d if isinstance(k, key.cls)]
             missing = [m for m in key.cls if m not in d.d]
